@@ -210,6 +210,13 @@ def run_case(case):
         bad = c07.compare_view(c07.object_view(back.codebase), case["codebase"], "read")
         if bad:
             return bad
+        # reading is repeatable: the same text read again gives the same report (no state carried between reads)
+        r2 = call_sut(ReportReader.from_json, texts[pretty])
+        if r2[0] == "exc":
+            return (f"read-again:{r2[1]}", r2[2])
+        again = r2[1]
+        if (again.version, again.uuid, again.repository, list(again.codebase.files)) != (back.version, back.uuid, back.repository, list(back.codebase.files)):
+            return ("read-again-differs", f"second read of the same document: {(again.version, again.uuid, again.repository)} vs first {(back.version, back.uuid, back.repository)}")
         r = call_sut(lambda: ReportWriter(back, pretty).to_json())
         if r[0] == "exc":
             return (f"rewrite:{r[1]}", r[2])
